@@ -159,13 +159,17 @@ Qed.
 
 (* ---- the parse part *)
 
-Lemma raw_addrs_same l : Corr.C14.raw_addrs l = Proofs.WildcardRDNSS.raw_addrs l.
-Proof. reflexivity. Qed.
+Lemma raw_addrs_same l : Forall raw_v6 l -> Corr.C14.raw_addrs l = Proofs.WildcardRDNSS.raw_addrs l.
+Proof.
+  induction 1 as [|r tl Hr Ht IH]; [reflexivity|].
+  unfold Corr.C14.raw_addrs, Proofs.WildcardRDNSS.raw_addrs in *. cbn [flat_map]. rewrite IH.
+  destruct r; try contradiction. reflexivity.
+Qed.
 
 Lemma in_raw_addrs x l : In x (Proofs.WildcardRDNSS.raw_addrs l) <-> In (RS6 x) l.
 Proof.
   unfold Proofs.WildcardRDNSS.raw_addrs. rewrite in_flat_map. split.
-  - intros [r [Hin Hx]]. destruct r as [| |a]; [destruct Hx | destruct Hx |]. destruct Hx as [<-|[]]. exact Hin.
+  - intros [r [Hin Hx]]. destruct r as [| | |a]; [destruct Hx | destruct Hx | destruct Hx |]. destruct Hx as [<-|[]]. exact Hin.
   - intros Hin. exists (RS6 x). split; [exact Hin | left; reflexivity].
 Qed.
 
@@ -176,13 +180,17 @@ Proof.
   intros Hin. apply memN_In in Hin. congruence.
 Qed.
 
-Lemma raw_bad_false l : existsb raw_bad l = false <-> Forall raw_v6 l.
+Lemma raw_bad_false l : existsb raw_bad l = false -> existsb raw_zoned l = false -> Forall raw_v6 l.
 Proof.
-  induction l as [|r tl IH]; cbn [existsb].
-  - split; [constructor | reflexivity].
-  - rewrite orb_false_iff, IH. split.
-    + intros [Hr Ht]. constructor; [destruct r; try discriminate; exact I | exact Ht].
-    + intros H. inversion H as [|? ? Hr Ht]; subst. split; [destruct r; try contradiction; reflexivity | exact Ht].
+  induction l as [|r tl IH]; cbn [existsb]; [constructor|].
+  rewrite !orb_false_iff. intros [Hr Ht] [Hz Hzt]. constructor; [|apply IH; assumption].
+  destruct r; try discriminate. exact I.
+Qed.
+
+Lemma raw_v6_not_bad l : Forall raw_v6 l -> existsb raw_bad l = false.
+Proof.
+  induction 1 as [|r tl Hr Ht IH]; [reflexivity|]. cbn [existsb]. rewrite IH.
+  destruct r; try contradiction. reflexivity.
 Qed.
 
 Lemma strictly_ascending_sorted14 l : StronglySorted N.lt l -> strictly_ascending l = true.
@@ -199,21 +207,24 @@ Proof.
   unfold holds_parse. cbn [c_raw c_parsed].
   destruct (parse_rdnss raw) as [[auto servers]|e] eqn:Ep.
   - destruct (parse_rdnss_spec _ _ _ Ep) as [Hs [Hin [Hauto Hall]]].
+    rewrite (raw_addrs_same raw Hall).
     rewrite !andb_true_iff. repeat split.
-    + apply negb_true_iff, raw_bad_false, Hall.
-    + rewrite raw_addrs_same. apply eqb_true_iff.
+    + apply negb_true_iff, raw_v6_not_bad, Hall.
+    + apply eqb_true_iff.
       destruct raw as [|r tl]; [apply Hauto; left; reflexivity|].
       apply eq_true_iff_eq. rewrite Hauto, memN_In, in_raw_addrs. split; [intros [H|H]; [discriminate | exact H] | intros H; right; exact H].
     + apply strictly_ascending_sorted14, Hs.
     + apply forallb_forall. intros s Hs'. apply Hin in Hs'. destruct Hs' as [H1 H2].
       apply andb_true_iff. split; [apply negb_true_iff, N.eqb_neq, H2|].
-      rewrite raw_addrs_same. apply memN_In, in_raw_addrs, H1.
-    + apply forallb_forall. intros a Ha. rewrite raw_addrs_same in Ha. apply in_raw_addrs in Ha.
+      apply memN_In, in_raw_addrs, H1.
+    + apply forallb_forall. intros a Ha. apply in_raw_addrs in Ha.
       destruct (N.eqb_spec a 0) as [E|E]; [reflexivity|]. cbn [orb]. apply memN_In, Hin. split; assumption.
   - destruct (existsb raw_bad raw) eqn:Eb; [reflexivity|]. cbn [orb].
+    destruct (existsb raw_zoned raw) eqn:Ez; [apply orb_true_r|]. rewrite orb_false_r.
     destruct (has_dup (Corr.C14.raw_addrs raw)) eqn:Ed; [reflexivity|]. exfalso.
+    pose proof (raw_bad_false raw Eb Ez) as Hall.
     assert (Hok : is_ok (parse_rdnss raw) = true).
-    { apply parse_rdnss_accepts. split; [apply raw_bad_false, Eb|]. rewrite <- raw_addrs_same. apply has_dup_false, Ed. }
+    { apply parse_rdnss_accepts. split; [exact Hall|]. rewrite <- (raw_addrs_same raw Hall). apply has_dup_false, Ed. }
     rewrite Ep in Hok. discriminate.
 Qed.
 
